@@ -345,7 +345,14 @@ extern "C" int pthread_join(pthread_t th, void** ret) {
 }
 extern "C" int pthread_detach(pthread_t th) {
 	static int (*real)(pthread_t) = 0; if (!real) *(void**)&real = dlsym(RTLD_NEXT, "pthread_detach");
-	if (managed()) for (int t = nT - 1; t >= 0; t--) if (T[t].state != ST_UNUSED && !T[t].joined && !T[t].detached && pthread_equal(T[t].pth, th)) { T[t].detached = true; break; }
+	if (managed()) {
+		if (strict_joins && th == (pthread_t)0) { invalid_joins_++; return ESRCH; }
+		for (int t = nT - 1; t >= 0; t--) if (T[t].state != ST_UNUSED && pthread_equal(T[t].pth, th)) { // newest first, as in pthread_join
+			if (!T[t].joined && !T[t].detached) { T[t].detached = true; break; }
+			if (strict_joins) { invalid_joins_++; return EINVAL; } // the handle was already joined or detached (two owners of one handle): the real call would be undefined
+			break;
+		}
+	}
 	return real(th);
 }
 extern "C" int pthread_cancel(pthread_t th) {
